@@ -3,7 +3,7 @@ import PyramidModel.Route
 /-! Driver for C01: one JSON case per line.  Texts travel as lists of code points, bytes as lists of numbers.
 in : {"ucd":{"word":[cp…],"digit":[…],"space":[…]}, "rxlib":[RX…],
       "routes":[{"name":T,"pattern":T,"preds":[["c",bool] | ["e",T,T]…],"static":bool}…], "path":[byte…]|null}
-     RX = ["eps"] | ["chr",cp] | ["any"] | ["set",neg,[["c",cp]|["r",lo,hi]|["e","d"|"w"|"s"]…]] | ["esc",k,neg]
+     RX = ["eps"] | ["chr",cp] | ["any"] | ["all"] | ["set",neg,[["c",cp]|["r",lo,hi]|["e","d"|"w"|"s"]…]] | ["esc",k,neg]
         | ["seq",RX,RX] | ["alt",RX,RX] | ["rep",greedy,min,max|null,RX]
      or {"op":"tables"}  (the ASCII tables of the model, compared with `re` by the harness)
 out: {"rxtext":[T…], "rxok":[bool…], "compile":["ok"|"reerror"|"unsupported"…], "regex":[T|null…], "gen":[T|null…],
@@ -42,6 +42,7 @@ partial def jRx (j : Json) : Except String Rx :=
   match j with
   | .arr #[.str "eps"] => pure .eps
   | .arr #[.str "any"] => pure .any
+  | .arr #[.str "all"] => pure .all
   | .arr #[.str "chr", c] => do pure (.chr (← jChar c))
   | .arr #[.str "set", n, .arr items] => do pure (.set (← jBool n) (← items.toList.mapM jItem))
   | .arr #[.str "esc", k, n] => do pure (.esc (← jEsc k) (← jBool n))
